@@ -275,13 +275,15 @@ fn trace_v<V: Fv>(ctx: &Ctx, nkeys: usize, nsig: usize, rep: &mut Report) {
             rep.evaluations += 1;
             let zs: Vec<i64> = att.iter().map(|x| x.2).collect();
             let mut best: Option<(f64, f64, usize)> = None;
+            let mut best_z: Option<(Vec<i64>, Vec<i64>, f64)> = None;
             for flip in [1.0f64, -1.0] {
                 let a0: Vec<ffs::C> = t0.iter().map(|x| x.scale(flip)).collect();
                 let a1: Vec<ffs::C> = t1.iter().map(|x| x.scale(flip)).collect();
                 let mut rp = ffs::Replay { zs: &zs, pos: 0, expected: Vec::with_capacity(2 * n) };
-                if ffs::ffsampling(&a0, &a1, &tree, &mut rp).is_none() || rp.expected.len() != 2 * n {
-                    continue;
-                }
+                let zz = match ffs::ffsampling(&a0, &a1, &tree, &mut rp) {
+                    Some(z) if rp.expected.len() == 2 * n => z,
+                    _ => continue,
+                };
                 let mut worst_mu = 0.0f64;
                 let mut worst_sg = 0.0f64;
                 let mut at = 0;
@@ -295,6 +297,9 @@ fn trace_v<V: Fv>(ctx: &Ctx, nkeys: usize, nsig: usize, rep: &mut Report) {
                 }
                 if best.map(|b| worst_mu.max(worst_sg) < b.0.max(b.1)).unwrap_or(true) {
                     best = Some((worst_mu, worst_sg, at));
+                    let r0: Vec<i64> = ffs::ifft(&zz.0).iter().map(|x| x.round() as i64).collect();
+                    let r1: Vec<i64> = ffs::ifft(&zz.1).iter().map(|x| x.round() as i64).collect();
+                    best_z = Some((r0, r1, flip));
                 }
             }
             let (wm, ws, at) = match best {
@@ -312,6 +317,23 @@ fn trace_v<V: Fv>(ctx: &Ctx, nkeys: usize, nsig: usize, rep: &mut Report) {
             }
             if !(ws < 1e-9) {
                 rep.violation("ffsampling:width-differs-from-reference", format!("{}: a sampler call of attempt {} was given a width that differs from the reference tree (relative deviation {:.3e})", V::NAME, ai, ws), replay);
+            }
+            // the emitted signature vector is exactly the lattice point the recorded samples
+            // imply: s2 = -(z0 f + z1 F) over Z[X]/(X^n+1) (last attempt only; with the opposite
+            // sign convention of t the sign flips as well)
+            if ai + 1 == calls.len() / (2 * n) {
+                if let (Some((z0, z1, flip)), Some(s2)) = (best_z, spec::decompress(&sb[41..], n)) {
+                    let fi: Vec<i64> = f.iter().map(|&x| x as i64).collect();
+                    let cfi: Vec<i64> = cf.iter().map(|&x| x as i64).collect();
+                    let a = spec::negamul_z(&z0, &fi);
+                    let b = spec::negamul_z(&z1, &cfi);
+                    let sgn: i128 = if flip > 0.0 { -1 } else { 1 };
+                    let same = (0..n).all(|i| sgn * (a[i] + b[i]) == s2[i] as i128);
+                    rep.count("signature_vectors_recomputed_exactly", 1);
+                    if !same {
+                        rep.violation("sign:s2-differs-from-the-sampled-lattice-point", format!("{}: the s2 in the signature is not -(z0 f + z1 F) for the recorded sampler outputs", V::NAME), json!({"variant": V::NAME, "key_seed": hex(&k.seed), "msg": hex(&msg), "note": "re-run the leg with the recorded seed"}));
+                    }
+                }
             }
             rep.count("attempts_replayed", 1);
             rep.count("sampler_calls_replayed", 2 * n as u64);
@@ -336,4 +358,5 @@ pub fn trace(ctx: &Ctx, rep: &mut Report) {
     trace_v::<F1024>(ctx, ctx.sz(2, 8), ctx.sz(10, 100), rep);
     rep.require("attempts_replayed", 50);
     rep.require("attempts_after_a_norm_rejection", 1);
+    rep.require("signature_vectors_recomputed_exactly", 20);
 }
